@@ -778,76 +778,99 @@ struct Trivial {
 async fn one_round(g: &mut Gen, cx: &mut Ctx<'_>, t: &Trivial, mult: usize) {
     // ---- binary format ------------------------------------------------
     for _ in 0..2 * mult {
+        g.boundary_budget = (g.rng.below(4) == 0) as u32;
         let v = g.vault();
         check_bin(cx, "Vault", &v, eq_vault, short, &t.vault, true).await;
     }
+    g.boundary_budget = (g.rng.below(4) == 0) as u32;
     let v = g.header();
     check_bin(cx, "Header", &v, eq_header, short, &t.header, true).await;
+    g.boundary_budget = (g.rng.below(4) == 0) as u32;
     let v = g.summary();
     check_bin(cx, "Summary", &v, eq_derived, short, &t.summary, true).await;
+    g.boundary_budget = (g.rng.below(4) == 0) as u32;
     let v = g.shared_access();
     check_bin(cx, "SharedAccess", &v, eq_derived, short, &t.shared, true).await;
     for _ in 0..2 {
+        g.boundary_budget = (g.rng.below(4) == 0) as u32;
         let v = g.vault_meta();
         check_bin(cx, "VaultMeta", &v, eq_vault_meta, |m| format!("VaultMeta {{ date_created: {:?}, description: {:?} }}", m.date_created(), m.description()), &t.vault_meta, true).await;
     }
     for _ in 0..8 * mult {
+        g.boundary_budget = (g.rng.below(4) == 0) as u32;
         let v = g.secret();
         let dbg = |s: &Secret| format!("{:?} user_data.fields={} json={}", s, s.user_data().len(), trunc(&serde_json::to_string(s).unwrap_or_default(), 200));
         check_bin(cx, "Secret", &v, eq_secret, dbg, &t.secret, false).await;
     }
     for _ in 0..3 * mult {
+        g.boundary_budget = (g.rng.below(4) == 0) as u32;
         let v = g.secret_meta();
         check_bin(cx, "SecretMeta", &v, eq_secret_meta, short, &t.secret_meta, false).await;
     }
+    g.boundary_budget = (g.rng.below(4) == 0) as u32;
     let v = g.secret_row(1);
     check_bin(cx, "SecretRow", &v, eq_secret_row, short, &t.secret_row, false).await;
     for _ in 0..2 {
+        g.boundary_budget = (g.rng.below(4) == 0) as u32;
         let v = g.aead_pack();
         check_bin(cx, "AeadPack", &v, eq_derived, short, &t.aead, true).await;
     }
+    g.boundary_budget = (g.rng.below(4) == 0) as u32;
     let v = g.vault_entry();
     check_bin(cx, "VaultEntry", &v, eq_derived, short, &t.entry, true).await;
+    g.boundary_budget = (g.rng.below(4) == 0) as u32;
     let v = g.vault_commit();
     check_bin(cx, "VaultCommit", &v, eq_derived, short, &t.commit, true).await;
     // events: trivial = nothing (the default is the unencodable Noop)
     for _ in 0..4 * mult {
+        g.boundary_budget = (g.rng.below(4) == 0) as u32;
         let v = g.write_event();
         check_bin(cx, "WriteEvent", &v, eq_derived, short, &[], true).await;
+        g.boundary_budget = (g.rng.below(4) == 0) as u32;
         let v = g.account_event();
         check_bin(cx, "AccountEvent", &v, eq_derived, short, &[], true).await;
     }
     for _ in 0..2 * mult {
+        g.boundary_budget = (g.rng.below(4) == 0) as u32;
         let v = g.device_event();
         check_bin(cx, "DeviceEvent", &v, eq_device_event, |e| match e {
             DeviceEvent::Trust(d) => format!("Trust({:?}, {:?}, {:?})", d.public_key(), d.extra_info(), d.created_date()),
             other => format!("{other:?}"),
         }, &[], true).await;
+        g.boundary_budget = (g.rng.below(4) == 0) as u32;
         let v = g.file_event();
         check_bin(cx, "FileEvent", &v, eq_derived, short, &[], true).await;
     }
     for _ in 0..3 {
+        g.boundary_budget = (g.rng.below(4) == 0) as u32;
         let v = g.event_record();
         check_bin(cx, "EventRecord", &v, eq_derived, short, &t.record, true).await;
     }
+    g.boundary_budget = (g.rng.below(4) == 0) as u32;
     let v = g.commit_hash();
     check_bin(cx, "CommitHash", &v, eq_derived, short, &t.hash, true).await;
     for _ in 0..3 {
+        g.boundary_budget = (g.rng.below(4) == 0) as u32;
         let v = g.commit_proof();
         check_bin(cx, "CommitProof", &v, eq_derived, |p| format!("{:?} hashes={}", p, p.proof.proof_hashes().len()), &t.proof, true).await;
     }
+    g.boundary_budget = (g.rng.below(4) == 0) as u32;
     let v = g.commit_state();
     check_bin(cx, "CommitState", &v, eq_derived, short, &t.state, true).await;
     for _ in 0..2 {
+        g.boundary_budget = (g.rng.below(4) == 0) as u32;
         let v = g.comparison();
         check_bin(cx, "Comparison", &v, eq_derived, short, &t.comparison, true).await;
     }
     for _ in 0..3 {
+        g.boundary_budget = (g.rng.below(4) == 0) as u32;
         let v = g.date_time();
         check_bin(cx, "UtcDateTime", &v, |a, b| eq_time(a, b, "value"), short, &t.time, true).await;
     }
+    g.boundary_budget = (g.rng.below(4) == 0) as u32;
     let v = g.cipher();
     check_bin(cx, "Cipher", &v, eq_derived, short, &t.cipher, true).await;
+    g.boundary_budget = (g.rng.below(4) == 0) as u32;
     let v = g.kdf();
     check_bin(cx, "KeyDerivation", &v, eq_derived, short, &t.kdf, true).await;
 
@@ -890,6 +913,7 @@ async fn one_round(g: &mut Gen, cx: &mut Ctx<'_>, t: &Trivial, mult: usize) {
     wire!("SyncCompare", g.sync_compare());
     wire!("SyncPacket", g.sync_packet());
     // HashMap-ordered folders => byte order may differ after a round trip
+    g.boundary_budget = (g.rng.below(4) == 0) as u32;
     let v = g.create_set();
     check_wire(cx, "CreateSet", &v, clone_create_set, eq_derived, false).await;
     wire!("UpdateSet", g.update_set(), eq_derived, false);
@@ -963,7 +987,7 @@ pub fn run(args: &Args, rep: &mut Reporter) {
     // the round-trip property (and of C15), reported with its location
     crate::c15::install_panic_hook();
     let rt = tokio::runtime::Builder::new_current_thread().enable_all().build().unwrap();
-    let total = args.by_tier(20_000u64, 2_000_000u64);
+    let total = args.by_tier(200_000u64, 4_000_000u64);
     let per_shard = total / args.shards.max(1) as u64 + 1;
     let mut g = Gen::new(args.shard_seed() ^ 0xC14);
     rep.set_max_samples(3);
